@@ -577,7 +577,7 @@ def needed_prefix(prefix, steps):
 # ----------------------------------------------------------------------
 # part A: bounded-exhaustive exploration
 # ----------------------------------------------------------------------
-E_ = "é".encode("utf-8")
+E_ = "\u00e9".encode("utf-8")
 START = [
     None,
     {b"a": {b"b": b"1", b"c d": [b"x", None, {b"e": b"2"}]}, b"s": b"v"},
@@ -721,13 +721,13 @@ def explore_chunk(chunk_id, payload):
 # ----------------------------------------------------------------------
 # parts B, C: random histories
 # ----------------------------------------------------------------------
-KEYS = [b"a", b"b", b"c d", b"k-1", b"_u", E_, "日本".encode(),
+KEYS = [b"a", b"b", b"c d", b"k-1", b"_u", E_, "\u65e5\u672c".encode(),
         b"x.y", b"sp ", b" lead", b"[k]", b"{m}", b"a=b", b"h#", b"1st",
         b"two  words", b"back\\slash", b'q"t', b"nl\nx", b"tab\there", b"-m",
-        b"A", b"a b", b"a.b", b"+", b"  ", "é é".encode(),
-        b"k" * 70, b"%s%n", b"\x01\x7f"]
+        b"A", b"a b", b"a.b", b"+", b"  ", "\u00e9 \u00e9".encode(),
+        b"k" * 70, b"%s%n", b"\x01\x7f", b"yvnyclg", b"anrietm"]
 VALUES = [b"1", b"", b"x=y", b"#h", b"a#b=c", b" lead", b"trail ",
-          b"multi\nline\n", b"~", b"null", "é\U0001f600".encode(),
+          b"multi\nline\n", b"~", b"null", "\u00e9\U0001f600".encode(),
           b"long " * 30, b"\ttab", b"%s %d %n", b"=", b"#", b"a.b[0]{}",
           b"\n", b"\\", b'"q"']
 JUNK = [b"]", b"}", b"x", b"..x", b"[", b"{", b"+", b"[x]", b"[1", b"[-1]",
@@ -978,6 +978,37 @@ PIECES = [b".", b"[", b"]", b"{", b"}", b" ", b"  ", b"\\", b"=", b"#", b"+",
           "\U0001f600".encode(), b"key", b"two words", b"x.y", b"[0]", b"{}"]
 
 
+# pairs of distinct keys with equal hash in the map implementation at the time
+# of writing (found by a birthday search over the library's CRC-32C variant):
+# workload only - the oracle knows nothing about hashing
+HASH_TWINS = [(b"yvnyclg", b"anrietm"), (b"yjlsppd", b"arpcvhn"),
+              (b"jolyind", b"rwpiovn"), (b"tzkxmdf", b"wlpzxgv")]
+
+
+def twin_sequences():
+    seqs = []
+    for a, b in HASH_TWINS:
+        for x, y in ((a, b), (b, a)):
+            seqs.append([
+                ("new", "p", None),
+                ("set", "p", x + b"=1"),
+                ("get", "p", y),
+                ("set", "p", y + b"=2"),
+                ("get", "p", x), ("get", "p", y),
+                ("keys", "p", b"{}"), ("count", "p", b"."),
+                ("delete", "p", x),
+                ("get", "p", y), ("get", "p", x), ("type", "p", y),
+                ("set", "p", b"m." + x + b"[1]=3"),
+                ("set", "p", b"m." + y + b".k=4"),
+                ("get_subtree", "p", b"m"),
+                ("delete", "p", b"m." + y),
+                ("get_subtree", "p", b"m." + x),
+                ("set_subtree", "p", y + b"."),
+                ("delete", "p", y),
+                ("keys", "p", b"{}")])
+    return seqs
+
+
 def rand_key(rng):
     n = rng.choice((1, 1, 2, 2, 3, 3, 4, 5, 6, 9))
     k = b"".join(rng.choice(PIECES) for _ in range(n))
@@ -1057,6 +1088,8 @@ def quote_chunk(chunk_id, payload):
                   ("set_subtree", "p", qb + b"{}"),
                   ("count", "p", qb)]
         seqs.append(steps)
+    if chunk_id == 0:
+        seqs += twin_sequences()
     run_sequences(binary, wd, seqs, part, model=None, per_case=50,
                   sample_tag=None)
     bump(part, "E_keys", len(keys))
